@@ -13,7 +13,7 @@ func init() {
 	register(&PropDef{
 		ID:    "C58",
 		Pkgs:  []string{tr, "grpc"},
-		Claim: "Decides the structural part: the per-call credential's metadata fetch is unreachable from the arms where it requires transport security and the connection is not secure or below PrivacyAndIntegrity (and those arms return Unauthenticated); both credential fetches and their error returns precede every header field and the hand-over to the writer; dial-time credentials that require security make the handshake fail on a connection with a valid security level below PrivacyAndIntegrity before the transport is marked secure; NewClient validates 'insecure'+requiring credentials; credential metadata keys are lower-cased and validated.",
+		Claim: "Decides the structural part: the per-call credential's metadata fetch is unreachable from the arms where it requires transport security and the connection is not secure or below PrivacyAndIntegrity (and those arms return Unauthenticated); both credential fetches and their error returns precede every header field and the hand-over to the writer; dial-time credentials that require security make the handshake fail on a connection with a valid security level below PrivacyAndIntegrity before the transport is marked secure; NewClient validates 'insecure'+requiring credentials; credential metadata keys are lower-cased and validated. The dial-time validation inspects the credentials in effect (the explicit transport credentials, else the bundle's) and asks every per-RPC credential; the call-credentials presence arms skip the fetch only when the call has none.",
 		NotDecided:  []string{"behaviour of third-party TransportCredentials that report no CommonAuthInfo (accepted by design)", "what a PerRPCCredentials implementation does with the context it is given"},
 		Assumptions: []string{"credentials.CheckSecurityLevel and RequestInfoFromContext behave as documented"},
 		Technique:   "static analysis: refusing-arm unreachability and dominating guards on go/ssa branch facts, constant-flow of status codes, value-origin of arguments",
